@@ -1,4 +1,4 @@
-(* Site inventory anchor (memo): remembered values are set by Expression/ExpressionAtom.Evaluate only and cleared only by ResetAll (Execute / Fetch preamble), ResetVariable (assignments) and Reset (Forget/Changed).
+(* Site inventory anchor (memo): remembered values are set by Expression/ExpressionAtom.Evaluate only and cleared only by ResetAll (Execute / Fetch preamble), ResetVariable / ResetElement (assignments; ResetElement = ResetVariable on the element and on the may-alias element variables of the same container, Eval.reset_assigned) and Reset (Forget/Changed).
    The expected list below is what the hand-written model was written against;
    tools/go2coq regenerates SitesGen.sites_memo from /repo on every run. *)
 From Grule Require Import Base SitesGen.
@@ -9,7 +9,8 @@ Lemma sites_memo_ok : sites_memo = [
   ("ast/BuiltInFunctions.Forget", "call gf WorkingMemory Reset", 1%nat);
   ("ast/Expression.Evaluate", "Evaluated=true", 5%nat);
   ("ast/ExpressionAtom.Evaluate", "Evaluated=true", 5%nat);
-  ("ast/Variable.Assign", "call ResetVariable", 4%nat);
+  ("ast/Variable.Assign", "call ResetVariable", 2%nat);
+  ("ast/Variable.Assign", "call ResetElement", 2%nat);
   ("ast/WorkingMemory.Reset", "range variableSnapshotMap", 1%nat);
   ("ast/WorkingMemory.Reset", "call ResetVariable", 1%nat);
   ("ast/WorkingMemory.Reset", "range expressionSnapshotMap", 1%nat);
@@ -17,6 +18,8 @@ Lemma sites_memo_ok : sites_memo = [
   ("ast/WorkingMemory.Reset", "range expressionAtomSnapshotMap", 1%nat);
   ("ast/WorkingMemory.ResetVariable", "range arr", 2%nat);
   ("ast/WorkingMemory.ResetVariable", "Evaluated=false", 2%nat);
+  ("ast/WorkingMemory.ResetElement", "call ResetVariable", 2%nat);
+  ("ast/WorkingMemory.ResetElement", "range variableSnapshotMap", 1%nat);
   ("ast/WorkingMemory.ResetAll", "range expressionSnapshotMap", 1%nat);
   ("ast/WorkingMemory.ResetAll", "Evaluated=false", 2%nat);
   ("ast/WorkingMemory.ResetAll", "range expressionAtomSnapshotMap", 1%nat);
